@@ -431,6 +431,11 @@ class Buildable(Generic[T], metaclass=abc.ABCMeta):
     else:
       if key < 0:
         key += len(all_positional_args)
+      if not 0 <= key < len(all_positional_args):
+        raise IndexError(
+            f'Cannot delete positional argument with index {key}'
+            ' (index out of range).'
+        )
       indices = [key]
 
     old_placeholders = [
@@ -464,11 +469,12 @@ class Buildable(Generic[T], metaclass=abc.ABCMeta):
     key = self.__signature_info__.index_to_key(key, self.__arguments__)
     positional_num = self.__signature_info__.var_positional_start
     if positional_num is None:
-      # *args does not exist
-      positional_num = len(self.__signature_info__.parameters)
-      if self.__signature_info__.var_keyword_name:
-        # Exclude **kwargs
-        positional_num -= 1
+      # *args does not exist: only positional parameters can be indexed (not
+      # keyword-only parameters or **kwargs).
+      positional_num = sum(
+          param.kind in (param.POSITIONAL_ONLY, param.POSITIONAL_OR_KEYWORD)
+          for param in self.__signature_info__.parameters.values()
+      )
 
     # Cannot set item when index is beyond current positional args list length.
     # Only index that points to *args can be out of range.
